@@ -8,7 +8,7 @@
     prescribes.  [op_ok]: batches are non-empty with positions in [0, MaxInt32), Remove has 0 <= begin <= end. *)
 From Coq Require Import List ZArith NArith Bool Arith Lia Permutation.
 From V Require Import KvCache.Model KvCache.ProofsList KvCache.ProofsInv KvCache.ProofsDefrag KvCache.ProofsOps
-  KvCache.ProofsFwd KvCache.ProofsRefine KvCache.ProofsFindings KvCache.ProofsWindow.
+  KvCache.ProofsFwd KvCache.ProofsRefine KvCache.ProofsFindings KvCache.ProofsWindow KvCache.ProofsWrapper KvCache.ProofsEnc.
 From V Require KvCache.Spec.
 Import ListNotations.
 Open Scope Z_scope.
@@ -228,6 +228,23 @@ Proof.
 Qed.
 Print Assumptions C06_window_complete_appends.
 
+(** the complete caller protocol of sliding-window caches, truncate-and-resume included: store where the sequence ends;
+    clear; or, after CanResume(seq, b) answered true, Remove(seq, b, MaxInt32) and continue at b ([proto_run]; batches store
+    each position of a sequence once).  Every token of every batch of such a run sees its complete ideal window. *)
+Theorem C06_window_complete_protocol : forall cap w sh ops pre batch post, 0 <= w ->
+  proto_run (ginit (Spec.spec_init cap (Some w) sh)) ops -> ops = pre ++ Spec.SForward batch :: post ->
+  forall q p t, In (q, p, t) batch ->
+  let g := grun (ginit (Spec.spec_init cap (Some w) sh)) (pre ++ [Spec.SForward batch]) in
+  Permutation (filter (inw (Some w) p) (g_A g q)) (Spec.visible_raw (g_s g) q p).
+Proof.
+  intros cap w sh ops pre batch post Hw Hrun Heq q p t Hin.
+  apply (proto_run_complete ops w (ginit (Spec.spec_init cap (Some w) sh)) (ginit_inv cap (Some w) sh) eq_refl Hw)
+    with (post := post) (t := t); auto.
+  - intros q' x Hx. simpl in Hx. contradiction.
+  - intros q'. simpl. constructor.
+Qed.
+Print Assumptions C06_window_complete_protocol.
+
 (** end to end: what the MODEL exposes for a batch token, together with what the window evicted inside the token's
     window, is the token's ideal window *)
 Theorem C06_exposed_is_ideal : forall w ms cap mb cp bp sh ops batch c' f,
@@ -256,6 +273,88 @@ Proof.
   apply Permutation_sym. eapply Permutation_trans; [exact HV|]. apply Permutation_app_tail. apply Permutation_sym. exact Hp.
 Qed.
 Print Assumptions C06_exposed_is_ideal.
+
+(** *** WrapperCache (kvcache/wrapper.go) over two Causal caches with their own windows (gemma-style: sliding window +
+    plain).  The state is the pair; the specification is the pair of specifications, with StartForward unwinding the first
+    cache by Remove(seq_k, pos_k, MaxInt32) when the second refuses the batch, Remove stopping at the first failing cache and
+    the prescribed Remove(seq, 0, MaxInt32) clearing both ([wpstep] / [wspec_pstep], KvCache/ProofsWrapper.v). *)
+Theorem C06_wrapper_refines : forall w0 w1 ms cap mb cp bp sh ops,
+  Z.of_nat (cache_size w0 ms cap mb (norm_pad cp)) < MaxInt -> Z.of_nat (cache_size w1 ms cap mb (norm_pad cp)) < MaxInt ->
+  Forall op_ok ops ->
+  let w := wprun (init w0 ms cap mb cp bp sh, init w1 ms cap mb cp bp sh) ops in
+  Inv2 w /\
+  R2 w (wspec_prun (Spec.spec_init (cache_size w0 ms cap mb (norm_pad cp)) w0 sh,
+                    Spec.spec_init (cache_size w1 ms cap mb (norm_pad cp)) w1 sh) ops).
+Proof.
+  intros w0 w1 ms cap mb cp bp sh ops H0 H1 Hok. cbv zeta.
+  destruct (init_inv w0 ms cap mb cp bp sh H0) as [I0 R0]. destruct (init_inv w1 ms cap mb cp bp sh H1) as [I1 R1].
+  apply wprun_refines; [split; assumption|split; assumption|exact Hok].
+Qed.
+Print Assumptions C06_wrapper_refines.
+
+Theorem C06_wrapper_step_refines : forall w ws o, Inv2 w -> R2 w ws -> op_ok o ->
+  Inv2 (fst (wpstep w o)) /\ R2 (fst (wpstep w o)) (fst (wspec_pstep ws o)) /\
+  out_agree (snd (wpstep w o)) (snd (wspec_pstep ws o)).
+Proof. exact wstep_refines. Qed.
+Print Assumptions C06_wrapper_step_refines.
+
+(** each layer type sees exactly the visible history of its own cache's specification *)
+Theorem C06_wrapper_visible_exact : forall c0 c1 s0 s1 batch w' f0 f1,
+  Inv c0 -> Inv c1 -> R c0 s0 -> R c1 s1 -> valid_batch batch ->
+  wstep true (c0, c1) (Forward batch) = (w', OFwd f0, OFwd f1) ->
+  forall i e, nth_error batch i = Some e ->
+  (exists vis, nth_error (f_vis f0) i = Some vis /\
+     Permutation (map (kt (phys (fst w'))) vis) (Spec.visible_raw (fst (Spec.spec_forward s0 batch)) (e_seq e) (e_pos e))) /\
+  (exists vis, nth_error (f_vis f1) i = Some vis /\
+     Permutation (map (kt (phys (snd w'))) vis) (Spec.visible_raw (fst (Spec.spec_forward s1 batch)) (e_seq e) (e_pos e))).
+Proof.
+  intros c0 c1 s0 s1 batch w' f0 f1 HI0 HI1 HR0 HR1 Hvb H i e He. unfold wstep in H.
+  destruct (start_forward_meta true c0 batch) as [c0' r0] eqn:E0. destruct r0 as [g0| | | |]; try (injection H; intros; discriminate).
+  destruct (start_forward_meta true c1 batch) as [c1' r1] eqn:E1. destruct r1 as [g1| | | |]; try (injection H; intros; discriminate).
+  injection H as <- <- <-. cbn [fst snd]. split.
+  - apply (C06_visible_exact c0 s0 batch (put_batch c0' (f_loc g0) batch) g0 HI0 HR0 Hvb); [rewrite start_forward_eq, E0; reflexivity|exact He].
+  - apply (C06_visible_exact c1 s1 batch (put_batch c1' (f_loc g1) batch) g1 HI1 HR1 Hvb); [rewrite start_forward_eq, E1; reflexivity|exact He].
+Qed.
+Print Assumptions C06_wrapper_visible_exact.
+
+(** a forward pass refused by the wrapper (either cache full), the batch continuing its sequences: both caches keep the
+    invariant and hold exactly what they held before minus what their own window evicted - the unwind removes the batch
+    from the first cache and nothing else *)
+Theorem C06_wrapper_full_is_error : forall c0 c1 s0 s1 batch,
+  Inv c0 -> Inv c1 -> R c0 s0 -> R c1 s1 -> valid_batch batch ->
+  (forall q p t a, In (q, p, t) batch -> In a (Spec.s_cells s0) -> Spec.has q a = true -> Spec.a_pos a < p) ->
+  snd (wpstep (c0, c1) (Forward batch)) = OErr EFull ->
+  let w' := fst (wpstep (c0, c1) (Forward batch)) in
+  Inv2 w' /\
+  exists s0' s1', R (fst w') s0' /\ R (snd w') s1' /\
+    Spec.s_cells s0' = Spec.evict (Spec.s_window s0) batch (Spec.s_cells s0) /\
+    (s1' = s1 \/ Spec.s_cells s1' = Spec.evict (Spec.s_window s1) batch (Spec.s_cells s1)).
+Proof. exact wrapper_full_fresh. Qed.
+Print Assumptions C06_wrapper_full_is_error.
+
+(** *** EncoderCache (kvcache/encoder.go, with fixes/C06-encoder-shift.patch).  Its one entry (the K/V of the most recent
+    image, per cross-attention layer) is exposed - EncoderCached() true and Get returning it - exactly as long as the
+    position it was stored for is part of the sequence; positions are followed through the shifts of Remove.  Histories:
+    forward passes with an image (StartForward with its index, Put on every layer, Compute), without, reservation passes
+    (never computed), Remove.  [pe_ok]: multimodal indices lie inside the batch. *)
+Theorem C06_encoder_exact : forall layers ops, layers <> [] -> Forall pe_ok ops ->
+  exists e, perun true layers enc_init ops = Some e /\
+    match ideal_run None ops with
+    | None => e_cached e = false
+    | Some (p, img) => e_cached e = true /\ Model.e_pos e = p /\ forall l, In l layers -> lookupN (e_data e) l = Some img
+    end.
+Proof.
+  intros layers ops Hl Hok. destruct (enc_refines layers ops enc_init None Hl (EI_init layers) Hok) as [e [He [_ HE]]].
+  exists e. auto.
+Qed.
+Print Assumptions C06_encoder_exact.
+
+Definition C06_encoder_as_found_full : Prop :=
+  forall layers ops e', layers <> [] -> Forall pe_ok ops ->
+  perun false layers enc_init ops = Some e' -> EI layers e' (ideal_run None ops).
+Theorem C06_encoder_as_found_refuted : ~ C06_encoder_as_found_full.
+Proof. exact enc_as_found_refuted. Qed.
+Print Assumptions C06_encoder_as_found_refuted.
 
 (** *** Non-vacuity: a concrete history (store, copy the prefix, diverge, remove a middle range with shift, clear a
     sequence, store a batch that only fits after defragmentation) satisfies the hypotheses; the cache (6 locations)
@@ -310,4 +409,40 @@ Proof.
   - simpl. repeat split; try (repeat constructor; unfold Spec.MaxInt32; simpl; lia);
       intros q L HL; simpl in HL; destruct q as [|q]; try discriminate; injection HL as <-; vm_compute; reflexivity.
   - vm_compute. repeat split; reflexivity.
+Qed.
+
+(** wrapper and encoder hypotheses are satisfiable: a refused batch in a 2+2... wrapper whose second cache is full, and an
+    image that survives a context shift at its new position while a later removal of that position drops it *)
+Example C06_example_wrapper :
+  let w := wprun (init (Some 2) 1 8 2 1 1 true, init None 1 4 2 1 1 true)
+             [Forward [(0%nat, 0, 1%N); (0%nat, 1, 2%N)]; Forward [(0%nat, 2, 3%N); (0%nat, 3, 4%N)]] in
+  snd (wpstep w (Forward [(0%nat, 4, 5%N)])) = OErr EFull /\
+  map (fun cl => (c_pos cl, c_seqs cl)) (cells (fst (fst (wpstep w (Forward [(0%nat, 4, 5%N)]))))) =
+    [(4, []); (1, []); (2, [0%nat]); (3, [0%nat])].
+Proof. cbv zeta. vm_compute. split; reflexivity. Qed.
+
+Example C06_example_encoder :
+  let ops := [PStore [0; 1; 2; 3] 2 7%N; PText [4; 5]; PRemove 0 2; PReserve [4; 5] [1%nat] 9%N; PRemove 1 4] in
+  Forall pe_ok ops /\ ideal_run None (firstn 4 ops) = Some (0, 7%N) /\ ideal_run None ops = Some (0, 7%N) /\
+  ideal_run None (ops ++ [PRemove 0 1]) = None /\
+  match perun true [0%nat; 3%nat] enc_init ops with Some e => e_cached e = true /\ Model.e_pos e = 0 | None => False end.
+Proof. cbv zeta. split; [repeat constructor; simpl; try discriminate; right; discriminate|]. vm_compute. repeat split; reflexivity. Qed.
+
+(** [C06_window_complete_protocol]: a run with eviction, a granted CanResume, the truncation and the continuation *)
+Example C06_example_protocol :
+  let s0 := Spec.spec_init 12 (Some 3) true in
+  let ops := [Spec.SForward [(0%nat, 0, 1%N); (0%nat, 1, 2%N); (0%nat, 2, 3%N); (0%nat, 3, 4%N)];
+              Spec.SForward [(0%nat, 4, 5%N); (0%nat, 5, 6%N)];
+              Spec.SCanResume 0%nat 5;
+              Spec.SRemove 0%nat 5 Spec.MaxInt32;
+              Spec.SForward [(0%nat, 5, 7%N)]] in
+  proto_run (ginit s0) ops /\
+  Spec.spec_can_resume (g_s (grun (ginit s0) (firstn 2 ops))) 0%nat 5 = true /\
+  Spec.spec_can_resume (g_s (grun (ginit s0) (firstn 2 ops))) 0%nat 3 = false /\
+  Spec.visible_raw (g_s (grun (ginit s0) ops)) 0%nat 5 = [(2, 3%N); (3, 4%N); (4, 5%N); (5, 7%N)].
+Proof.
+  cbv zeta. split; [|vm_compute; repeat split; reflexivity].
+  simpl. repeat split; try (repeat constructor; unfold Spec.MaxInt32; simpl; lia);
+    try (intros q L HL; simpl in HL; destruct q as [|q]; try discriminate; injection HL as <-; vm_compute; reflexivity);
+    try (intros q; destruct q as [|q]; vm_compute; repeat constructor; simpl; intuition discriminate).
 Qed.
